@@ -221,7 +221,12 @@ func neutralExpr(r *rand.Rand, depth, k int) []piece {
 	return out
 }
 
-func randWs(r *rand.Rand) string { return pick(r, wsPool) }
+func randWs(r *rand.Rand) string {
+	if r.Intn(40) == 0 {
+		return longWsRun(r)
+	}
+	return pick(r, wsPool)
+}
 
 // renderTemplate: mode 0 = every gap gets other whitespace; 1 = one gap gets a comment;
 // 2 = every gap gets whitespace or comments at random.
